@@ -100,6 +100,22 @@ let () =
   let pub_l : (string, int) Hashtbl.t = Hashtbl.create 8 in               (* publisher -> max_loaned_samples *)
   let loans : (string, string) Hashtbl.t = Hashtbl.create 16 in           (* loan id -> publisher *)
   let case_m = ref 1 in
+  (* model-free facts about the history, from the implementation's own observations: they guard the keys of
+     the known findings (a key is given only when the finding's preconditions hold in the history itself) *)
+  let case_cap = ref 1 in                                                    (* max(subscriber_expired_connection_buffer, max_borrowed) *)
+  let live_pubs : (string, unit) Hashtbl.t = Hashtbl.create 8 in
+  let vanished : (string, unit) Hashtbl.t = Hashtbl.create 8 in             (* publishers whose Publisher was dropped *)
+  let dropped_subs : (string, unit) Hashtbl.t = Hashtbl.create 8 in         (* subscribers whose Subscriber was dropped *)
+  let touched : (string * string, unit) Hashtbl.t = Hashtbl.create 16 in    (* (s, p): s ran update_connections while p was registered *)
+  let touch sub = Hashtbl.iter (fun p () -> Hashtbl.replace touched (sub, p) ()) live_pubs in
+  let vanished_held sub =   (* vanished publishers of which sub holds a sample *)
+    let seen = Hashtbl.create 4 in
+    Hashtbl.iter (fun _ (sb, orig) -> if sb = sub && Hashtbl.mem vanished orig then Hashtbl.replace seen orig ()) held;
+    Hashtbl.length seen in
+  let vanished_touched sub = Hashtbl.fold (fun p () a -> if Hashtbl.mem touched (sub, p) then a + 1 else a) vanished 0 in
+  let all_subs () = let t = Hashtbl.create 4 in
+    Hashtbl.iter (fun (sb, _) () -> Hashtbl.replace t sb ()) touched; Hashtbl.iter (fun _ (sb, _) -> Hashtbl.replace t sb ()) held;
+    Hashtbl.fold (fun k () a -> k :: a) t [] in
   (* delivered-but-not-yet-received payloads per (subscriber, publisher); only maintained when the service
      allows one subscriber and has no overflow and no history (then `n1` names the recipient and nothing may be skipped) *)
   let track_delivery = ref false and cur_sub = ref "" in
@@ -130,6 +146,8 @@ let () =
       | "C" :: _variant :: s :: p :: b :: m :: h :: ovf :: e :: _ ->
         flush_case (); incr case_no; op_no := 0; dead := false; Hashtbl.reset impl_expect;
         Hashtbl.reset held; Hashtbl.reset pub_l; Hashtbl.reset loans; case_m := max 1 (int_of_string m);
+        case_cap := max (int_of_string e) (max 1 (int_of_string m));
+        Hashtbl.reset live_pubs; Hashtbl.reset vanished; Hashtbl.reset dropped_subs; Hashtbl.reset touched;
         Hashtbl.reset pub_seq; Hashtbl.reset loan_pl; Hashtbl.reset pending; pending_skip := None; cur_sub := "";
         track_delivery := (s = "1" && ovf = "0" && h = "0");
         Buffer.add_string cur_case (String.concat " " [s; p; b; m; h; ovf; e] ^ "|");
@@ -180,6 +198,13 @@ let () =
                | _ -> ())
             | _ -> () in
         (match name, args with
+         | ("rx" | "hs" | "su"), [sub] when impl <> "-" && impl <> "P" -> touch sub
+         | "sc", _ when String.length impl > 1 && impl.[0] = 'c' -> touch (String.sub impl 1 (String.length impl - 1))
+         | "pc", _ when String.length impl > 1 && impl.[0] = 'c' -> Hashtbl.replace live_pubs (String.sub impl 1 (String.length impl - 1)) ()
+         | "pd", [p] when impl = "ok" -> Hashtbl.remove live_pubs p; Hashtbl.replace vanished p ()
+         | "sd", [sb] when impl = "ok" -> Hashtbl.replace dropped_subs sb ()
+         | _ -> ());
+        (match name, args with
          | "rx", [sub] -> note_rx sub impl
          | "rd", [id] -> if impl = "ok" then Hashtbl.remove held id
          | "sc", _ -> if String.length impl > 1 && impl.[0] = 'c' then cur_sub := String.sub impl 1 (String.length impl - 1)
@@ -210,7 +235,7 @@ let () =
          | _ -> ());
         List.iter (fun tok -> match String.split_on_char ':' tok with
           | ["d"; id] -> Hashtbl.remove held id
-          | "r" :: sub :: rest when rest <> [] -> note_rx sub (String.concat ":" rest)
+          | "r" :: sub :: rest when rest <> [] -> touch sub; note_rx sub (String.concat ":" rest)
           | _ -> ()) (match obs with _ :: "H" :: t -> t | _ -> []);
         if !dead then begin
           (* the model replay stopped at the first kind=model mismatch of this case; the oracles that need
@@ -237,7 +262,13 @@ let () =
                     (no operation panics) fails on this history.  A panic that disappears with a larger
                     to_be_removed_connections buffer is the fatal_panic of prepare_connection_removal *)
                  incr mm_spec; dead := true;
-                 let key = if not (panics (bump_tbrcap w0) o) then "pubsub:expired-connection-buffer-exceeded-panic" else "pubsub:panic:" ^ name in
+                 (* known finding only when (a) the panic disappears with a larger expired-connection buffer in the model and
+                    (b) in the history itself some subscriber holds a sample of each of MORE than
+                    max(subscriber_expired_connection_buffer, max_borrowed) publishers that were dropped *)
+                 let by_cap = not (panics (bump_tbrcap w0) o) in
+                 let pre = List.exists (fun sb -> vanished_held sb > !case_cap) (all_subs ()) in
+                 if by_cap && not pre then bump extra "guard_rejected_expired_buffer_panic";
+                 let key = if by_cap && pre then "pubsub:expired-connection-buffer-exceeded-panic" else "pubsub:panic:" ^ name in
                  bump extra ("panic_" ^ (if key = "pubsub:panic:" ^ name then "other" else "expired_buffer"));
                  report ("specP" ^ key) (Printf.sprintf "MISMATCH case=%d op=%d kind=spec prop=C08 key=%s line=[%s] spec=no-panic impl=P\n" !case_no !op_no key line) end
              | Val (w1, mo) ->
@@ -279,12 +310,27 @@ let () =
                     incr mm_spec; bump extra "expired_connection_leaked";
                     report "specstale" (Printf.sprintf "MISMATCH case=%d op=%d kind=spec prop=C01 key=pubsub:expired-connection-leaked line=[%s] spec=no-empty-expired-connection-after-receive-none impl=kept\n" !case_no !op_no line)
                   | _ -> ());
-                 (match int_of_nat (lost_delivery w0 w1) with
-                  | 1 -> incr mm_spec; bump extra "lost_never_connected";
-                    report "speclost1" (Printf.sprintf "MISMATCH case=%d op=%d kind=spec prop=C01 key=pubsub:delivered-sample-lost-subscriber-not-yet-connected line=[%s] spec=delivered-samples-stay-receivable impl=connection-destroyed-with-data\n" !case_no !op_no line)
-                  | 2 -> incr mm_spec; bump extra "lost_expired_buffer_overflow";
-                    report "speclost2" (Printf.sprintf "MISMATCH case=%d op=%d kind=spec prop=C01 key=pubsub:expired-connection-buffer-discards-data line=[%s] spec=delivered-samples-stay-receivable impl=connection-removed-with-data\n" !case_no !op_no line)
-                  | _ -> ());
+                 (* a connection with undelivered samples for a subscriber that stays registered disappeared (lost_delivery
+                    of the model, per pair).  Known finding 1 only when, in the history itself, the publisher was dropped and
+                    the subscriber never ran update_connections / receive / has_samples while that publisher was registered;
+                    known finding 2 only when the publisher was dropped, the subscriber was connected to it and more than
+                    max(expired buffer, max_borrowed) publishers it was connected to were dropped *)
+                 ignore (lost_delivery w0 w1);
+                 List.iter (fun ((p, sb), c) ->
+                   if sub_live w0 sb && sub_live w1 sb && c_has_data c && getc w1 p sb = None then begin
+                     let ps = string_of_int (int_of_nat p) and ss = string_of_int (int_of_nat sb) in
+                     let gone = Hashtbl.mem vanished ps and conn = Hashtbl.mem touched (ss, ps) in
+                     incr mm_spec;
+                     if not c.c_rcv && gone && not conn then begin
+                       bump extra "lost_never_connected";
+                       report "speclost1" (Printf.sprintf "MISMATCH case=%d op=%d kind=spec prop=C01 key=pubsub:delivered-sample-lost-subscriber-not-yet-connected line=[%s] spec=delivered-samples-stay-receivable impl=connection-destroyed-with-data\n" !case_no !op_no line) end
+                     else if c.c_rcv && gone && conn && vanished_touched ss > !case_cap then begin
+                       bump extra "lost_expired_buffer_overflow";
+                       report "speclost2" (Printf.sprintf "MISMATCH case=%d op=%d kind=spec prop=C01 key=pubsub:expired-connection-buffer-discards-data line=[%s] spec=delivered-samples-stay-receivable impl=connection-removed-with-data\n" !case_no !op_no line) end
+                     else begin
+                       bump extra "guard_rejected_lost_delivery";
+                       report "speclost0" (Printf.sprintf "MISMATCH case=%d op=%d kind=spec prop=C01 key=pubsub:delivered-sample-lost line=[%s] spec=delivered-samples-stay-receivable impl=connection-p%s-s%s-gone-with-data(receiver-attached=%b,publisher-dropped=%b,subscriber-updated-meanwhile=%b,dropped-publishers-it-was-connected-to=%d,cap=%d)\n" !case_no !op_no line ps ss c.c_rcv gone conn (vanished_touched ss) !case_cap) end
+                   end) w0.w_conns;
                  (match mo with BSent _ | BRecv (Some _) | BLoaned _ -> cur_nontrivial := true | _ -> ());
                  (* the conservation invariant of C02 (and the bounds C08 counts with), evaluated on the model state *)
                  if not (inv_topology_b w1) && not !inv_bad then begin
@@ -335,7 +381,16 @@ let () =
             else if os <> impl then begin
               (* which kind of sample changed: one whose subscriber is gone (F2) or not *)
               let changed = List.filter (fun x -> List.assoc x.x_id (canary w0) <> x.x_expect) w0.w_samples in
-              let orphan = changed <> [] && List.for_all (fun x -> not (sub_live w0 x.x_sub)) changed in
+              let orphan_model = changed <> [] && List.for_all (fun x -> not (sub_live w0 x.x_sub)) changed in
+              (* and in the history itself: every sample whose content differs from what the implementation showed at
+                 receive time is held by a subscriber whose Subscriber object was dropped before *)
+              let changed_impl = List.filter_map (fun v -> match String.split_on_char '=' v with
+                | [id; pl] -> (match Hashtbl.find_opt impl_expect id with Some e when e <> pl -> Some id | _ -> None)
+                | _ -> None) vals in
+              let orphan_impl = changed_impl <> [] && List.for_all (fun id -> match Hashtbl.find_opt held id with
+                | Some (sb, _) -> Hashtbl.mem dropped_subs sb | None -> false) changed_impl in
+              if orphan_model && not orphan_impl then bump extra "guard_rejected_sample_outlives_subscriber";
+              let orphan = orphan_model && orphan_impl in
               bump extra (if orphan then "canary_changed_subscriber_dropped" else "canary_changed_subscriber_registered");
               if orphan && !case_canary_bad then () else begin
               if orphan then case_canary_bad := true;
